@@ -13,6 +13,7 @@ import (
 	"encoding/json"
 	"fmt"
 	"io"
+	"runtime/debug"
 	"testing"
 	"testing/synctest"
 	"time"
@@ -28,6 +29,7 @@ type c15TranspCase struct {
 	Dir      int    `json:"dir,omitempty"`
 	Preface  bool   `json:"preface,omitempty"` // the valid client preface precedes the string (request direction only)
 	Hex      string `json:"hex,omitempty"`
+	raw      []byte // enumeration only: the string itself (Hex is filled in when the case is reported)
 	Tail     bool   `json:"tail,omitempty"`     // a well-formed exchange follows the string
 	Bytewise bool   `json:"bytewise,omitempty"` // the string arrives one byte per call
 
@@ -179,7 +181,7 @@ func c15Exchanges(thorough bool) map[string]c15Exchange {
 		"req:settings+headersES": {Dir: c15DirReq, Preface: "whole", Bytes: cat(settings, reqHeadersES)[:21]}, // 21 bytes = whole
 	}
 	if thorough {
-		m["req:headers+msg"] = c15Exchange{Dir: c15DirReq, Preface: "whole", Bytes: cat(reqHeaders, dataMsgES)} // 26 bytes
+		m["req:headers+data3"] = c15Exchange{Dir: c15DirReq, Preface: "whole", Bytes: cat(reqHeaders, c15Frame(0, 0x1, 1, 7, 8, 9))} // 24 bytes
 		m["resp:headers+msg"] = c15Exchange{Dir: c15DirResp, Bytes: cat(respHeaders, dataMsgES)}                // 24 bytes
 		m["req:preface"] = c15Exchange{Dir: c15DirReq, Preface: "composed", Bytes: reqHeadersES}               // 24 bytes composed
 	}
@@ -189,7 +191,7 @@ func c15Exchanges(thorough bool) map[string]c15Exchange {
 func c15ExchangeNames(thorough bool) []string {
 	names := []string{"resp:settings+headers", "req:headers+data", "req:settings+headersES"}
 	if thorough {
-		names = append(names, "resp:headers+msg", "req:preface", "req:headers+msg")
+		names = append(names, "resp:headers+msg", "req:preface", "req:headers+data3")
 	}
 	return names
 }
@@ -199,9 +201,12 @@ func c15ExchangeNames(thorough bool) []string {
 func c15TranspSteps(cs *c15TranspCase, bases []c15Base, exch map[string]c15Exchange, tails *[2][]byte) (steps []c15Step, fin int) {
 	switch cs.Kind {
 	case "garbage":
-		s, err := hex.DecodeString(cs.Hex)
-		if err != nil {
-			panic(err)
+		s := cs.raw
+		if s == nil {
+			var err error
+			if s, err = hex.DecodeString(cs.Hex); err != nil {
+				panic(err)
+			}
 		}
 		if cs.Preface {
 			steps = append(steps, c15Step{Dir: cs.Dir, Data: []byte(clientPreface), N: -1})
@@ -281,6 +286,9 @@ type c15TranspRun struct {
 	bases []c15Base
 	exch  map[string]c15Exchange
 	tails [2][]byte
+
+	n        int64
+	lastKind string
 }
 
 func c15NewTranspRun(r *rep.Report, thorough bool) *c15TranspRun {
@@ -309,7 +317,22 @@ func (x *c15TranspRun) run(cs *c15TranspCase, nontrivial bool) {
 	if nontrivial {
 		r.NonTrivial("")
 	}
-	r.Outcome(fmt.Sprintf("%s:gaveup(req=%v,resp=%v):traces=%d:panic=%v", cs.Kind, res.BrokenReq, res.BrokenResp, len(res.Traces), res.Panic != ""))
+	r.Outcome(c15TranspOutcome(cs.Kind, &res))
+	x.n++
+	if x.n%40000 == 1 || x.lastKind != cs.Kind {
+		x.lastKind = cs.Kind
+		smp := *cs
+		if smp.raw != nil {
+			smp.Hex = hex.EncodeToString(smp.raw)
+		}
+		r.Sample(map[string]any{"case": smp, "calls": len(steps), "outcome": c15TranspOutcome(cs.Kind, &res)})
+	}
+	if res.Opaque == "" && res.Panic == "" && !(cs.Kind == "compose" && (res.BrokenReq || res.BrokenResp || len(res.Traces) != 0)) {
+		return
+	}
+	if cs.raw != nil {
+		cs.Hex = hex.EncodeToString(cs.raw)
+	}
 	where := fmt.Sprintf(" [case %s]", c15JSON(cs))
 	if res.Opaque != "" {
 		r.Violate("not-transparent", res.Opaque+where, *cs)
@@ -329,6 +352,24 @@ func (x *c15TranspRun) run(cs *c15TranspCase, nontrivial bool) {
 	}
 }
 
+var c15OutcomeCache = map[[5]int]string{}
+
+func c15TranspOutcome(kind string, res *c15Result) string {
+	b2i := func(b bool) int {
+		if b {
+			return 1
+		}
+		return 0
+	}
+	key := [5]int{int(kind[0])<<8 | int(kind[1]), b2i(res.BrokenReq), b2i(res.BrokenResp), len(res.Traces), b2i(res.Panic != "")}
+	if s, ok := c15OutcomeCache[key]; ok {
+		return s
+	}
+	s := fmt.Sprintf("%s:gaveup(req=%v,resp=%v):traces=%d:panic=%v", kind, res.BrokenReq, res.BrokenResp, len(res.Traces), res.Panic != "")
+	c15OutcomeCache[key] = s
+	return s
+}
+
 func c15JSON(v any) string { b, _ := json.Marshal(v); return string(b) }
 
 func TestVerifC15Transp(t *testing.T) {
@@ -336,6 +377,7 @@ func TestVerifC15Transp(t *testing.T) {
 	defer r.Write()
 	r.Rule = "case = one sequence of Read/Write calls on the wrapped conn: (garbage) every byte string up to the bound, after the client preface / instead of it / in the response direction, alone or followed by a well-formed exchange, in one call or one byte per call; (corrupt) every single-field corruption (type: all 255 other values, each flag bit, length +-1, stream id 0/1/3/5/9/reserved bit, first/last payload byte, each preface byte) of every frame of 14 two-call exchanges, the connection ending after the corrupted frame or any later one, whole runs | one byte per call, Close | EOF then Close; (compose) every composition of short exchanges into calls; (inject) every I/O outcome (n zero/partial/full x EOF/timeout/other error, short write) at every call; each as client and as server. Distinct by construction; non-trivial = the tracer has at least one complete frame header to parse"
 	thorough := rep.Thorough()
+	defer debug.SetGCPercent(debug.SetGCPercent(400))
 	x := c15NewTranspRun(r, thorough)
 	if in := rep.ReplayInput(); in != nil {
 		var rec struct {
@@ -490,13 +532,12 @@ func TestVerifC15Transp(t *testing.T) {
 					for i := 0; i < l; i++ {
 						buf[l-1-i] = byte(v >> uint(8*i))
 					}
-					hx := hex.EncodeToString(buf)
 					for _, pl := range places {
 						for s := 0; s < 2; s++ {
 							for _, tail := range []bool{false, true} {
-								x.run(&c15TranspCase{Kind: "garbage", Server: s == 1, Dir: pl.dir, Preface: pl.preface, Hex: hx, Tail: tail}, tail)
+								x.run(&c15TranspCase{Kind: "garbage", Server: s == 1, Dir: pl.dir, Preface: pl.preface, raw: buf, Tail: tail}, tail)
 								if l >= 2 && l <= 2 {
-									x.run(&c15TranspCase{Kind: "garbage", Server: s == 1, Dir: pl.dir, Preface: pl.preface, Hex: hx, Tail: tail, Bytewise: true}, tail)
+									x.run(&c15TranspCase{Kind: "garbage", Server: s == 1, Dir: pl.dir, Preface: pl.preface, raw: buf, Tail: tail, Bytewise: true}, tail)
 								}
 							}
 						}
@@ -505,6 +546,6 @@ func TestVerifC15Transp(t *testing.T) {
 			})
 		}
 	}
-	r.Extra["bound"] = fmt.Sprintf("garbage strings up to %d bytes (longer arbitrary inputs are outside the bound); corruptions: one field of one frame per case; compositions: exchanges of 19-26 bytes; %d base scripts", maxLen, len(x.bases))
+	r.Extra["bound"] = fmt.Sprintf("garbage strings up to %d bytes (longer arbitrary inputs are outside the bound); corruptions: one field of one frame per case; compositions: exchanges of 19-24 bytes; %d base scripts", maxLen, len(x.bases))
 	_ = io.EOF
 }
